@@ -347,7 +347,7 @@ ADOPT = {
   "sig_rewrites": [(r"\(this: &Self, other: &Self\)", "(this: &RcH2, other: &RcH2, heap: &mut MHeap)")],
   "spec": _ADOPT_PRE + r"""        old(heap).counts_fit(),
     ensures
-        final(heap).wf(), final(heap).out@ == old(heap).out@,
+        final(heap).wf(), final(heap).out@ == old(heap).out@, final(heap).cnts@ == old(heap).cnts@,
         this.hid == other.hid ==> final(heap).view() == old(heap).view().insert(this.ptr, bump(old(heap).view()[this.ptr], ll(other.ptr))),
         this.hid != other.hid ==> final(heap).view() == adopt_spec(old(heap).view(), this.ptr, other.ptr),
 """,
@@ -369,7 +369,7 @@ ADOPT = {
   "params": ["this", "other"],
   "sig_rewrites": [(r"\(this: &Self, other: &Self\)", "(this: &RcH2, other: &RcH2, heap: &mut MHeap)")],
   "spec": _ADOPT_PRE + r"""    ensures
-        final(heap).wf(), final(heap).out@ == old(heap).out@,
+        final(heap).wf(), final(heap).out@ == old(heap).out@, final(heap).cnts@ == old(heap).cnts@,
         this.hid == other.hid ==> final(heap).view() == old(heap).view().insert(this.ptr, unbump(old(heap).view()[this.ptr], ll(other.ptr))),
         this.hid != other.hid ==> final(heap).view() == unadopt_spec(old(heap).view(), this.ptr, other.ptr),
 """,
@@ -456,7 +456,7 @@ pub proof fn lemma_nonzero_preserved(t: Tables, a: Ptr, b: Ptr)
         old(heap).wf(), old(heap).has(this.ptr), old(heap).out@ == Set::<Ptr>::empty(),
         sym_counts(old(heap).view()), nonzero(old(heap).view()), tables_closed(old(heap).view()),
     ensures
-        final(heap).wf(), final(heap).out@ == Set::<Ptr>::empty(),
+        final(heap).wf(), final(heap).out@ == Set::<Ptr>::empty(), final(heap).cnts@ == old(heap).cnts@,
         final(heap).view() == unlink_spec(old(heap).view(), this.ptr),
 """,
   "body_start": r"""    proof { axiom_key_models(); }
@@ -505,7 +505,7 @@ pub proof fn lemma_nonzero_preserved(t: Tables, a: Ptr, b: Ptr)
    1: {"header_must_match": r"while let Some\(kv\) = it\.next\(\)", "spec": r"""        invariant
             obeys_key_model::<Link>(), obeys_key_model::<Ptr>(),
             forward == fl(x), backward == bl(x), x == this.ptr, links_s1@ == tb, tb == v0[x],
-            heap.wf(), heap.out@ =~= Set::<Ptr>::empty().insert(x),
+            heap.wf(), heap.out@ =~= Set::<Ptr>::empty().insert(x), heap.cnts@ == old(heap).cnts@,
             v0.contains_key(x), sym_counts(v0), nonzero(v0), tables_closed(v0),
             heap.view().dom() == v0.dom().remove(x),
             // the iterator enumerates the dying object's table exactly once, in an arbitrary order
